@@ -10,6 +10,7 @@ import BqVerif.Proofs.Wake
 import BqVerif.Proofs.SchedExact
 import BqVerif.Proofs.WakeNet
 import BqVerif.Proofs.WakeNet2
+import BqVerif.Proofs.WorkersInv
 /-!
 # C07 — every awaited runtime future resolves exactly once with its own result
 
@@ -331,6 +332,36 @@ theorem C07_G_wake_discipline (tbl : Table) (attached : Bool) (nw nc : Nat) (trs
   have hnr : ∀ bx, boxGet w.boxes a.m = some bx → bx.ready = false :=
     fun bx hbx => ready_false_of_lt bx (h2.not_ready w hw a haw (by omega) bx hbx)
   exact ⟨hnr, result_lookup_ok w h a v by_ (fun _ => hnr) haw⟩
+
+/-- **Progress, the local half** (flat network, all schedules).  In every reachable quiescent
+    state, on every live worker: there is no delayed task; and every task that is not cancelled and
+    waits for a mailbox that still exists waits for an *incomplete* mailbox
+    (`num_results < expected_num_results`, with `num_results` + outstanding tokens of its slots
+    ≤ expected) and is that mailbox's registered waiter - nobody sleeps on a complete mailbox.
+    What is missing for `C07_G_progress`: the lower token bound (an incomplete mailbox of a
+    non-cancelled owner has an outstanding token), see the design note. -/
+theorem C07_G_quiescent_partial (tbl : Table) (attached : Bool) (nw nc : Nat) (trs : List Tr)
+    (hwf : ∀ t ∈ trs, t.wf) (hq : ((Net.initFlat tbl attached nw nc).exec trs).quiescent = true)
+    (w : Worker) (hw : w ∈ ((Net.initFlat tbl attached nw nc).exec trs).workers)
+    (hal : w.alive = true) (hmd : w.mainDead = false) :
+    w.delayed = [] ∧ w.ready = []
+    ∧ ∀ t ∈ w.tasks, t.uncancelled w → ∀ m b, t.desired = some m → boxGet w.boxes m = some b →
+        b.ready = false ∧ b.dest = some t.addr
+        ∧ b.num + sumTok w.id m b.expected ((Net.initFlat tbl attached nw nc).exec trs) ≤ b.expected := by
+  have hc := cinv_exec tbl attached nw nc trs hwf w hw
+  have h2 := (NInv2.init tbl attached nw nc).exec trs hwf
+  have hW := h2.base.winv w hw
+  simp only [Net.quiescent, Bool.and_eq_true, List.all_eq_true] at hq
+  have hidle := hq.2 w hw
+  simp only [hal, hmd, Bool.not_true, Bool.false_or, Bool.and_eq_true, List.isEmpty_iff] at hidle
+  refine ⟨hc.idle hidle.1 hidle.2, hidle.2, ?_⟩
+  intro t ht hu m b hd hb
+  obtain ⟨a1, a2⟩ := no_lost_wakeup w hW t ht hu m b hd hb
+  have hnr : t.addr ∉ w.ready := by rw [hidle.2]; simp
+  refine ⟨?_, a2 hnr, h2.cnt w hw m b hb⟩
+  cases hr : b.ready with
+  | false => rfl
+  | true => exact absurd (a1 hr) hnr
 
 /-- the assumption of the (former) partial version holds in every reachable state -/
 theorem C07_G_no_deposit_into_complete (tbl : Table) (attached : Bool) (nw nc : Nat) (trs : List Tr)
